@@ -196,6 +196,21 @@ func smallAlphabet(d MD) []letter {
 			}
 		})
 	}
+	add("retained map view: Set, Clear(last), Set again", func(c *rdCase) {
+		h := sub(c, op{code: opMutable, fd: mi}, hi(hMap, mi))
+		for _, st := range []op{
+			{code: opMSet, h: h, fd: mi, key: Val{B: []byte("only")}, v: Val{U: 1}},
+			{code: opMClear, h: h, fd: mi, key: Val{B: []byte("only")}},
+			{code: opMLen, h: h, fd: mi},
+			{code: opMSet, h: h, fd: mi, key: Val{B: []byte("again")}, v: Val{U: 2}},
+			{code: opMGet, h: h, fd: mi, key: Val{B: []byte("again")}},
+		} {
+			if c.dead {
+				return
+			}
+			c.step(st, nil)
+		}
+	})
 	add("Mutable(mi).Clear(k)", func(c *rdCase) {
 		h := sub(c, op{code: opMutable, fd: mi}, hi(hMap, mi))
 		if !c.dead {
